@@ -115,6 +115,10 @@ func Corpus() []struct{ Name, Data string } {
 }
 
 var snippets = []string{
+	// several compile errors in one function: which one is reported is a function of the bytes
+	"goto a goto b goto c",
+	"do goto x end goto y do do goto z end end local function f() goto p goto q end",
+	"break break", "::l:: ::l:: ::m:: ::m::", "local function f() return ... end local function g() return ... end",
 	"local a = [[long\nstring]] local b = [==[ ]] ]=] ]==] return a..b",
 	"local s = \"esc \\n \\t \\\\ \\\" \\' \\065 \\10 \\\n continued\" return s",
 	"local x = 0x1F + 1e3 + .5 + 3. + 0xA -- numbers\nreturn x",
@@ -714,6 +718,38 @@ func (e *Engine) Run(t *core.Tape, cfg *core.Config, st *core.Stats) *core.Viola
 		}
 	}
 
+	// the chunk name is not part of the bytes: the verdict does not depend on it
+	if t.Choose(6) == 0 {
+		name := []string{"", "=", "@", "=x", "@file.lua", "a:b", "%s%d", strings.Repeat("n", 300), "\n", "=[C]", "\x00"}[t.Choose(11)]
+		var vn verdict
+		func() {
+			defer func() {
+				if r := recover(); r != nil {
+					vn = verdict{class: "escape", detail: fmt.Sprintf("Go panic left Load: %v", r)}
+				}
+			}()
+			fn, err := L.Load(strings.NewReader(src), name)
+			switch {
+			case err == nil && fn != nil:
+				vn = verdict{ok: true, class: "function", hNoLines: protoHash(fn.Proto, false)}
+			case err != nil:
+				if ae, isA := err.(*lua.ApiError); isA && ae.Type == lua.ApiErrorSyntax {
+					vn = verdict{ok: true, class: "syntax"}
+				} else {
+					vn = verdict{class: "misclassified", detail: fmt.Sprintf("%T %v", err, err)}
+				}
+			}
+		}()
+		st.Evals++
+		st.Probe("load_under_another_chunk_name")
+		if !vn.ok {
+			return core.Violationf(vn.class, "Load of %s (%s) under the chunk name %q: %s\ninput: %s", srcName, mutDesc, name, vn.detail, quoteShort(src))
+		}
+		if vn.class != base.class || (vn.class == "function" && vn.hNoLines != base.hNoLines) {
+			return core.Violationf("nondeterministic-load", "the verdict on %s (%s) depends on the chunk name: %s under \"<sim>\", %s under %q\ninput: %s", srcName, mutDesc, base.class, vn.class, name, quoteShort(src))
+		}
+	}
+
 	// LoadFile must agree: the same text behind a first line that starts with '#' (skipped, whatever its length)
 	if t.Choose(6) == 0 {
 		fill := []int{0, 1, 60, 4093, 4094, 4095, 4096, 4097, 8191, 8192, 9000}[t.Choose(11)]
@@ -776,6 +812,10 @@ func (e *Engine) Run(t *core.Tape, cfg *core.Config, st *core.Stats) *core.Viola
 		}
 		if !v.ok {
 			return core.Violationf(v.class, "source %s mutation %s delivery %s: %s\ninput: %s", srcName, mutDesc, describePattern(rd), v.detail, quoteShort(src))
+		}
+		if v.class == "syntax" && base.class == "syntax" && v.detail != base.detail {
+			return core.Violationf("nondeterministic-load", "source %s mutation %s: the same bytes gave two different error values: %q (plain reader) and %q (delivery %s)\ninput: %s",
+				srcName, mutDesc, base.detail, v.detail, describePattern(rd), quoteShort(src))
 		}
 		if v.class != base.class || v.hLines != base.hLines {
 			return core.Violationf("chunking-dependence", "source %s mutation %s: plain reader gives %s (%s), delivery %s gives %s (%s)\ninput: %s",
